@@ -139,3 +139,17 @@ def check(ctx):
             for u in F.units(f"{U}::{fn}", crate="fuel_gas_price_algorithm"):
                 for b in u.bodies:
                     ctx.no_panic(f"4.{fn}", b)
+
+    # -- 6. the bound is applied on every path of the price updates (no early exit around the clamp) --
+    with ctx.clause("6.clamp-on-every-path"):
+        UPQ = "fuel_gas_price_algorithm::v1::AlgorithmUpdaterV1"
+        for fn, fld in (("update_da_gas_price", "new_scaled_da_gas_price"), ("update_exec_gas_price", "new_scaled_exec_price")):
+            b6 = F.unit(f"{UPQ}::{fn}").root
+            ws = [(bb, s) for bb, j, s in b6.stmts() if bb in b6.live and s["k"] == "assign" and place_fields(s["pl"]) and place_fields(s["pl"])[-1] == (UPQ, fld)]
+            cw = [c for c in b6.calls if c.bb in b6.live and c.dest is not None and place_fields(c.dest) and place_fields(c.dest)[-1] == (UPQ, fld)]
+            blocks = [bb for bb, _ in ws] + [c.bb for c in cw]
+            ctx.expect_sites(f"6.{fn}-price-write", [str(x) for x in blocks], at_least=1, what=f"write of {fld}")
+            p6 = b6.path([0], b6.return_blocks(), cut_blocks=blocks) if blocks else [0]
+            ctx.add(f"6.{fn}-always-writes-the-clamped-price", "MPT", p6 is None,
+                    f"every return of {fn} has written the (clamped) price: there is no early exit that leaves a price outside its bounds untouched", sites=[f"bb{x}" for x in blocks], site_key=fn,
+                    witness=None if p6 is None else {"path": b6.describe_path(p6)})
